@@ -293,7 +293,8 @@ def main(run):
         res = replay(rec)
         rec["replay"] = res
         run.report(rec, res["confirmed"])
-    pick = [s for s in scs if s["halo"] not in (0.0,) and len(s["levels"]) > 1][:2]
+    cscs = [dict(s_, pid="P1", levels=(s_["levels"] if len(s_["levels"]) > 1 else [s_["n"], 1 % (s_["n"] + 1)])) for s_ in kindl.base_scenarios("quick", 0)]
+    pick = [s for s in cscs if s["halo"] not in (0.0,) and len(s["levels"]) > 1][:2]
     kindl.run_canaries(run, "vf.props.C05:canary_probe", CANARIES_A, pick)
     for name, patch in CANARIES_B:
         try:
